@@ -102,12 +102,29 @@ def _one(case):
         if k is not None:
             res.known_finding(k["key"], k["what"])
         else:
-            res.violation({"alg": case["alg"], "N": case["N"], "check_double_cover": case.get("check_double_cover", False)}, msg)
+            res.violation({"alg": case["alg"], "N": case["N"], "check_double_cover": case.get("check_double_cover", False),
+                           "after": case.get("after")}, msg)
+    return res
+
+
+def _group(cases):
+    """Several grids judged one after the other in the same worker process (as a user session would): grids of equal size
+    from both algorithms follow each other, in alternating order."""
+    res = Result()
+    prev = None
+    for case in cases:
+        case = dict(case, after=prev)
+        res.merge(_one(case))
+        prev = [case["alg"], case["N"]]
     return res
 
 
 def replay(case):
-    return [m for key, m in judge(dict(case)) if known_match(key) is None]
+    case = dict(case)
+    after = case.pop("after", None)
+    if after:  # reproduce the process history: the grid judged just before in the same process
+        judge({"alg": after[0], "N": after[1]})
+    return [m for key, m in judge(case) if known_match(key) is None]
 
 
 def run(tier):
@@ -121,8 +138,14 @@ def run(tier):
         cases += [{"alg": alg, "N": n, "check_double_cover": n <= (40 if tier == "quick" else 120)} for n in ns]
     for alg in ("ico", "cube3D", "randomS"):
         cases += [{"alg": alg, "N": n} for n in (1, 2, 3)]
-    cases.sort(key=lambda c: -c["N"])
-    res = merge_results(pmap(_one, cases))
+    by_n = {}
+    for c in cases:
+        by_n.setdefault(c["N"], []).append(c)
+    groups = []
+    for n in sorted(by_n, reverse=True):
+        g = sorted(by_n[n], key=lambda c: c["alg"], reverse=bool(n % 2))
+        groups.append(g)
+    res = merge_results(pmap(_group, groups))
     rule = ("enumeration of (algorithm, N): cube4D and randomQ, " + ("every N in 1..40 and 4 seeded N in 41..110 each" if tier == "quick"
             else "every N in 1..272") + "; direction grids N=1..3 for the equal-share clause. For N>=4 every cell is compared with a "
             "Monte-Carlo nearest-rotation measure (adaptive number of uniform points so that the smallest cell gets >= 10 000 hits). "
